@@ -36,6 +36,8 @@ def main():
     ids = args or sorted(x for x in os.listdir(os.path.join(VERIF, 'seeded')) if os.path.isdir(os.path.join(VERIF, 'seeded', x)))
     res = {}
     path = os.path.join(VERIF, 'audit', 'seed_regression.json')
+    if args and os.path.exists(path):
+        res = json.load(open(path)).get('results', {})      # (ids given: re-run those, keep the rest)
     with concurrent.futures.ThreadPoolExecutor(j) as ex:
         for sid, r in ex.map(one, ids):
             res[sid] = r
